@@ -835,7 +835,7 @@ func Run(r *ev.Run, replay string) {
 	runCases(r, o, wit, "witness_cases")
 
 	const shards = 4
-	perShard := r.N(100, 10000)
+	perShard := r.N(400, 10000)
 	const chunk = 500
 	var wg sync.WaitGroup
 	var failed sync.Once
